@@ -783,6 +783,10 @@ func (e *vC19Env) doReserved(in *vC19Inst, wp, cls string, tree []int, cur int, 
 	if cur > 0 {
 		mode, curRev = "update", in.revIDs[cur-1]
 	}
+	// "whitespace and key-order variations": the same JSON value with insignificant whitespace between the reserved
+	// member's name and its colon (a byte-level pre-filter must not depend on the compact form)
+	wsv := in.idx % 3
+	prop = strings.Replace(prop, `":`, []string{`":`, `" : `, "\"\t\n : "}[wsv], 1)
 	body := `{` + prop + `,"v":"reserved ` + cls + `"}`
 	status := 0
 	gen, hist := 1, []string{}
@@ -1313,6 +1317,9 @@ func TestVerif_C19_BodyPaths(t *testing.T) {
 			bases = bases[:1] // the reserved table does not depend on the token
 			if !resvOnly {
 				bases[0] = rnd.intn(len(toks))
+			} else {
+				// three instances: one per whitespace variant of the reserved member (doReserved, by instance index)
+				bases = []int{bases[0], bases[0], bases[0]}
 			}
 		}
 		for _, base0 := range bases {
